@@ -1000,7 +1000,7 @@ class Interpreter(InterpreterBase, HoldableObject):
             if not required:
                 mlog.log(e)
                 mlog.log(*msg, '(disabling)')
-                return self.disabled_subproject(subp_name, exception=e)
+                return self.disabled_subproject(subp_name, exception=e, for_machine=for_machine)
             mlog.error(*msg)
             raise e
 
@@ -1033,7 +1033,7 @@ class Interpreter(InterpreterBase, HoldableObject):
                     # fatal and VS CI treat any logs with "ERROR:" as fatal.
                     mlog.exception(e, prefix=mlog.yellow('Exception:'))
                 mlog.log('\nSubproject', mlog.bold(subdir), 'is buildable:', mlog.red('NO'), '(disabling)')
-                return self.disabled_subproject(subp_name, exception=e)
+                return self.disabled_subproject(subp_name, exception=e, for_machine=for_machine)
             raise e
 
     def _save_ast(self, subdir: str, ast: mparser.CodeBlockNode) -> None:
